@@ -330,7 +330,8 @@ class ElementList(MutableSequence):
 
         # just copy the first element of the ElementProxy (e.g. message.pid = message2.pid)
         if isinstance(value, ElementProxy):
-            value = value[0].to_er7()
+            # encoded with the delimiters of this element, which are the ones the text is split with below
+            value = value[0].to_er7(encoding_chars=self.element.encoding_chars)
 
         name = name.upper()
         reference = None if name is None else self.element.find_child_reference(name)
@@ -341,7 +342,8 @@ class ElementList(MutableSequence):
         elif isinstance(value, Element):  # it is already an instance of Element
             if value.parent is not None and value.name == child_name:
                 # the element already belongs to a parent (maybe this one): as for ElementProxy, assign a copy
-                child = self.element.parse_child(value.to_er7(), child_name=child_name, reference=child_ref)
+                child = self.element.parse_child(value.to_er7(encoding_chars=self.element.encoding_chars),
+                                                 child_name=child_name, reference=child_ref)
             else:
                 child = value
         elif isinstance(value, BaseDataType):
